@@ -97,6 +97,14 @@ Tx3gEntry == [ data_reference_index |-> 1, display_flags |-> <<>>, horizontal_ju
                box_record |-> <<0, 0, 0, 0>>, style_record |-> <<0, 0, 0, 0, 0, 1, 0, 16, 255, 255, 255, 255>> ]
 EntryOf(kind) == CASE kind = "avc" -> EncAvc1(Avc1Entry(320, 240)) [] kind = "aac" -> EncMp4a(Mp4aEntry)
                    [] kind = "ttxt" -> EncTx3g(Tx3gEntry)
+\* the sample entry as a tree node: the visual / audio entries are containers (78 / 28 bytes of fixed
+\* fields, then child boxes: avcC / esds), so that layout operations can reach inside them
+EntryFixed(kind) == CASE kind = "avc" -> 78 [] kind = "aac" -> 28 [] OTHER -> 0
+EntryNode(kind) ==
+  LET b == EntryOf(kind)  f == EntryFixed(kind) IN
+  IF f = 0 THEN Leaf(b)
+  ELSE [ t |-> Slice(b, 5, 4), body |-> Slice(b, 9, f), kids |-> <<Leaf([i \in 1..(Len(b) - 8 - f) |-> b[i + 8 + f]])>>,
+         leaf |-> FALSE, large |-> FALSE, spare |-> <<>> ]
 HandlerOfKind(kind) == CASE kind = "avc" -> VIDE [] kind = "aac" -> SOUN [] kind = "ttxt" -> SBTL
 UND == <<117, 110, 100>>
 
@@ -115,7 +123,7 @@ TrakNode(tr) ==
                                                       op_color |-> [red |-> 0, green |-> 0, blue |-> 0]]))>>
                 [] tr.kind = "aac" -> <<Leaf(EncSmhd([version |-> 0, flags |-> 0, balance |-> 0]))>>
                 [] OTHER -> <<>>
-      stsd == Cont(STSD, Zeros(4) \o BE(1, 4), <<Leaf(EntryOf(tr.kind))>>)
+      stsd == Cont(STSD, Zeros(4) \o BE(1, 4), <<EntryNode(tr.kind)>>)
       stbl == Cont(STBL, <<>>,
                  <<stsd, Leaf(EncStts(WSttsOf(tb)))>>
                  \o (IF tb.ctts.some THEN <<Leaf(EncCtts(WCttsOf(tb)))>> ELSE <<>>)
@@ -218,7 +226,7 @@ InterOrder(tracks) ==
 
 EmptyStbl(kind) ==
   Cont(STBL, <<>>,
-       << Cont(STSD, Zeros(4) \o BE(1, 4), <<Leaf(EntryOf(kind))>>),
+       << Cont(STSD, Zeros(4) \o BE(1, 4), <<EntryNode(kind)>>),
           Leaf(EncStts([version |-> 0, flags |-> 0, entries |-> <<>>])),
           Leaf(EncStsc([version |-> 0, flags |-> 0, entries |-> <<>>])),
           Leaf(EncStsz([version |-> 0, flags |-> 0, sample_size |-> <<>>, sample_count |-> <<>>, sample_sizes |-> <<>>])),
@@ -283,12 +291,15 @@ InitKids(fm) ==
                       \o [t \in 1..n |-> FragTrakNode(t, fm.tracks[t])]
                       \o <<Cont(MVEX, <<>>, [t \in 1..n |-> TrexNode(t, fm.tracks[t].trexDur)])>>) >>
 
-\* top-level boxes of the fragments for given placements pl[i][j]
+\* top-level boxes of the fragments for given placements pl[i][j]; with fm.mdatFirst (optional
+\* field) the media data of every fragment precedes its moof (run offsets are then negative)
+MdatFirst(fm) == "mdatFirst" \in DOMAIN fm /\ fm.mdatFirst
 FragKids(fm, pl) ==
   Flat([i \in 1..Len(fm.frags) |->
-     << Cont(MOOF, <<>>, <<Leaf(EncMfhd([version |-> 0, flags |-> 0, sequence_number |-> FromInt(i)]))>>
-                         \o [j \in 1..Len(fm.frags[i]) |-> TrafNode(fm.frags[i][j], pl[i][j])]),
-        Leaf(Box(MDAT, Flat([j \in 1..Len(fm.frags[i]) |-> RunBytes(fm, i, j)]))) >>])
+     LET moof == Cont(MOOF, <<>>, <<Leaf(EncMfhd([version |-> 0, flags |-> 0, sequence_number |-> FromInt(i)]))>>
+                         \o [j \in 1..Len(fm.frags[i]) |-> TrafNode(fm.frags[i][j], pl[i][j])])
+         mdat == Leaf(Box(MDAT, Flat([j \in 1..Len(fm.frags[i]) |-> RunBytes(fm, i, j)])))
+     IN IF MdatFirst(fm) THEN <<mdat, moof>> ELSE <<moof, mdat>>])
 
 Root(kids) == [t |-> <<>>, body |-> <<>>, kids |-> kids, leaf |-> FALSE, large |-> FALSE, spare |-> <<>>]
 
@@ -298,7 +309,9 @@ NthOfType(root, t, i) == LET idx == SelectSeq([j \in 1..Len(root.kids) |-> j], L
 Placements(fm, root, lead) ==
   [i \in 1..Len(fm.frags) |->
      LET mi == NthOfType(root, MOOF, i)
-         di == CHOOSE j \in (mi + 1)..Len(root.kids) : root.kids[j].t = MDAT /\ \A x \in (mi + 1)..(j - 1) : root.kids[x].t # MDAT
+         di == IF MdatFirst(fm)
+               THEN CHOOSE j \in 1..(mi - 1) : root.kids[j].t = MDAT /\ \A x \in (j + 1)..(mi - 1) : root.kids[x].t # MDAT
+               ELSE CHOOSE j \in (mi + 1)..Len(root.kids) : root.kids[j].t = MDAT /\ \A x \in (mi + 1)..(j - 1) : root.kids[x].t # MDAT
          moofStart == TopOff(root, mi)
          payload   == TopOff(root, di) + HdrLen(root.kids[di])
          mdatEnd   == TopOff(root, di) + NodeSize(root.kids[di])
